@@ -1,48 +1,88 @@
 import GqlProofs.Lemmas.VarsLemmas
 import GqlProofs.Lemmas.ConformsLemmas
 import GqlProofs.Lemmas.VarsFixtures
+import GqlProofs.Lemmas.VarsFuel
 /-
   C14 — variable coercion is total and type-conforming.
 
   Model: `coerce s op vars` = `validator.VariableValues(schema, op, variables)` (validator/vars.go),
-  outcomes `ok m | err msg path | panic msg | outOfFuel`.  Specification: `Conforms`, `Coercible`,
-  `conformsWith` (GqlModel/Vars/Spec.lean).
+  outcomes `ok m | err msg path | panic msg | outOfFuel`.  Specification: `Conforms`, `Coercible`
+  (GqlModel/Vars/Spec.lean; built-in scalars are judged by the COMPATIBLE KIND TABLE (C14) written
+  there), and `ConformsExceptTypename` / `CoercibleExceptTypename`, which grant the one exception
+  the implementation still needs (known finding R14c: the undeclared key `__typename` is tolerated
+  in input objects and handed on).
 
-  ────────────────────────────────────────────────────────────────────────────────────────────
-  FULL STATEMENT of C14_total:
+  Hypotheses used below, all of them facts about loaded schemas / Go values, none about the
+  variables supplied:
+    InputsClosed s       every input-object field has an input type that exists (C07)
+    InputFieldsNodup s   the fields of an input object have different names (C07)
+    EnumNamesPlain s     enum value names are Names (they do not start with `<`)
+    wfFieldsB true vars  the REPRESENTATION INVARIANT of `GoVal`: the nil interface occurs only in
+                         `interface{}`-typed containers, map keys are pairwise different.  Typed
+                         slices and typed maps of every element type are inside it.
 
-      theorem C14_total (s op vars) (schema closed, vars JSON-like) : ∀ msg, coerce s op vars ≠ .panic msg
-
-  R14a (REPAIRED in validator/vars.go, `legacyNullIntoListPanics = false` in the model): the list
-  branch of `validateVarType` used to reach `val.Type()` on the zero Value for a `null` list item
-  whose expected type is itself a list; now `if !val.IsValid() { return val, nil }` comes first.
-  The three former witnesses are kept as theorems of normal return (`C14_total_R14a_returns`,
-  `…_default_returns`, `…_field_returns`).
-
-  `C14_total_partial` is the full statement for every variables map that satisfies `safeB`
-  (GqlModel/Vars/Spec.lean).  Since the repair `safeB` no longer forbids null list items; what
-  remains is
-    (1) no TYPED MAP (`map[string]string`, `map[string]int`, …): the `SetMapIndex` assignability
-        panic — e.g. `map[string]string{"c": "1"}` against a field `c: [Int!]`, the coerced `[]string`
-        is not assignable to `string` — is STILL in the tree (X-vars: 71 of 4·10^5 triples).
-        Everything `encoding/json` decodes uses `map[string]interface{}` and satisfies (1);
-    (2) a null item occurs only in `[]interface{}` slices.  This is not a restriction on Go values
-        (an element of a typed slice is never the nil interface) but the representation invariant
-        of `GoVal` (`wfB`) restricted to slices: the model of the list loop asks for the element's
-        `Type()` when a typed slice "holds" `.nil` at a non-null named element type.
-  The hypothesis on default values is gone: converted literals are always safe
-  (`valueValueConst_safe`).
-  ────────────────────────────────────────────────────────────────────────────────────────────
+  History of the statements (all repaired in the tree, the model follows):
+    R14a  a null list item meeting a list type panicked         → `C14_total_R14a_*`
+    R14d  a coerced list item was discarded                      → `C14_conforms_R14d_*`
+    typed maps: `SetMapIndex` panicked when a coerced field was not assignable to the element type
+          of a typed map; now the map is copied                  → `C14_total_typedMap_returns`
+    R14b  enum values were matched with `strings.EqualFold`      → `C14_rejects_enum_other_case`
+  Still open (known finding): R14c                               → `C14_conforms_counterexample_typename`
 -/
 open Gql Gql.Fixtures
 
-/-- former R14a witness: `query($v: [[Int]])` with `{"v": [null]}` now returns `{"v": [null]}`. -/
+/-- Coercion returns normally — values or an error, never a panic — for every operation over a
+    schema whose input types are closed and EVERY variables map of the domain (nil, bool, ints,
+    floats, json.Number, strings, slices and maps of any element type, arbitrarily nested).
+    `hwf` is the representation invariant of `GoVal`, not a restriction on the Go values. -/
+theorem C14_total (s : Schema) (op : OperationDef) (vars : VarMap)
+    (hclosed : InputsClosed s)
+    (hop : ∀ v ∈ op.vars, ∃ d, s.type? v.type.name = some d)
+    (hwf : wfFieldsB true vars = true) :
+    ∀ msg, coerce s op vars ≠ .panic msg := by
+  intro msg h
+  have := coerceLoop_noPanic s op vars hclosed hwf op.vars .nil hop
+  unfold coerce at h
+  simp [h, NoPanic] at this
+
+/-- … and the fuel of the model is an artefact without consequence: coercion RETURNS — values or
+    an error (`outOfFuel` is never the outcome: `fuelFor` suffices). -/
+theorem C14_total_returns (s : Schema) (op : OperationDef) (vars : VarMap)
+    (hclosed : InputsClosed s) (hfn : InputFieldsNodup s)
+    (hop : ∀ v ∈ op.vars, ∃ d, s.type? v.type.name = some d)
+    (hwf : wfFieldsB true vars = true) :
+    (∃ m, coerce s op vars = .ok m) ∨ (∃ msg path alts, coerce s op vars = .err msg path alts) := by
+  have h1 := C14_total s op vars hclosed hop hwf
+  have h2 := coerceLoop_fuel s hfn op vars op.vars .nil (fun _ h => h)
+  unfold coerce at h1 h2 ⊢
+  cases h : coerceLoop s op vars op.vars .nil with
+  | ok m => exact Or.inl ⟨m, rfl⟩
+  | err msg path alts => exact Or.inr ⟨msg, path, alts, rfl⟩
+  | panic msg => exact absurd h (h1 msg)
+  | outOfFuel => simp [h, NotFuel] at h2
+
+/-- former witness of the typed-map panic: `$v: In` with `map[string]int{"l": 1}` (the coerced list
+    `[[1]]` is not assignable to `int`) now returns a copy of the object as
+    `map[string]interface{}{"l": []interface{}{[]int{1}}}`, which conforms. -/
+theorem C14_total_typedMap_returns :
+    coerce schema (opWith (named "In")) (varsV (.map (.int .int) (.cons (str "l") (int 1) .nil)))
+        = .ok (varsV (imap [(str "l", islice [.slice (.int .int) (.cons (int 1) .nil)])]))
+    ∧ Conforms schema (named "In") (imap [(str "l", islice [.slice (.int .int) (.cons (int 1) .nil)])]) := by
+  refine ⟨by rfl, by decide⟩
+
+/-- a typed map whose entries all fit is returned as it is (no copy): `map[string]int{"a": 1}`. -/
+theorem C14_total_typedMap_kept :
+    coerce schema (opWith (named "In")) (varsV (.map (.int .int) (.cons (str "a") (int 1) .nil)))
+        = .ok (varsV (.map (.int .int) (.cons (str "a") (int 1) .nil))) := by
+  rfl
+
+/-- former R14a witness: `query($v: [[Int]])` with `{"v": [null]}` returns `{"v": [null]}`. -/
 theorem C14_total_R14a_returns :
     coerce schema (opWith (listOf (listOf (named "Int")))) (varsV (islice [.nil])) = .ok (varsV (islice [.nil])) := by
   rfl
 
 /-- former R14a witness without any variable supplied: `query($v: [[Int]] = [null])` and the empty
-    map now returns the default `{"v": [null]}`. -/
+    map returns the default `{"v": [null]}`. -/
 theorem C14_total_R14a_default_returns :
     coerce schema
       (opWith (listOf (listOf (named "Int"))) (some (.mk .list [] (.cons [] (lit .null "null") Pos.zero .nil) Pos.zero))) .nil
@@ -50,7 +90,7 @@ theorem C14_total_R14a_default_returns :
   rfl
 
 /-- former R14a witness inside an input object: `query($v: In)` with `{"v": {"l": [[1, null], null]}}`
-    now returns the map unchanged. -/
+    returns the map unchanged. -/
 theorem C14_total_R14a_field_returns :
     coerce schema (opWith (named "In"))
       (varsV (imap [(str "l", islice [islice [int 1, .nil], .nil])]))
@@ -62,36 +102,6 @@ theorem C14_total_R14a_nonnull_errors :
     coerce schema (opWith (listOf (listOf (named "Int") true))) (varsV (islice [.nil]))
       = .err (str "cannot be null") [.name (str "variable"), .name (str "v"), .idx 0] [] := by
   rfl
-
-/-- Coercion returns normally (values or an error, never a panic) for every operation over a
-    schema whose input types are closed and every variables map without typed maps (`safeB`:
-    null list items are allowed; default values need no hypothesis). -/
-theorem C14_total_partial (s : Schema) (op : OperationDef) (vars : VarMap)
-    (hclosed : InputsClosed s)
-    (hop : ∀ v ∈ op.vars, ∃ d, s.type? v.type.name = some d)
-    (hvars : safeFieldsB vars = true) :
-    ∀ msg, coerce s op vars ≠ .panic msg := by
-  intro msg h
-  have := coerceLoop_noPanic s op vars hclosed hvars op.vars .nil hop
-  unfold coerce at h
-  simp [h, NoPanic] at this
-
-/-- C14_total for the domain of `encoding/json`: a variables map in which every container is a
-    `[]interface{}` or a `map[string]interface{}` (null items and entries allowed) is coerced
-    without a panic.  FALSE before the repair of R14a (`C14_total_R14a_returns` was its
-    counterexample). -/
-theorem C14_total_jsonLike (s : Schema) (op : OperationDef) (vars : VarMap)
-    (hclosed : InputsClosed s)
-    (hop : ∀ v ∈ op.vars, ∃ d, s.type? v.type.name = some d)
-    (hvars : jsonLikeFieldsB vars = true) :
-    ∀ msg, coerce s op vars ≠ .panic msg :=
-  C14_total_partial s op vars hclosed hop (jsonLikeFields_safe vars hvars)
-
-/-- the remaining panic of the list/object walk (typed maps, outside `safeB`): `$v: In` with
-    `map[string]int{"l": 1}` — the coerced list is not assignable to `int` (`SetMapIndex`). -/
-theorem C14_total_counterexample_typedMap :
-    ∃ msg, coerce schema (opWith (named "In")) (varsV (.map (.int .int) (.cons (str "l") (int 1) .nil))) = .panic msg :=
-  ⟨_, rfl⟩
 
 /-- Absent variables take their defaults (1): every declared variable that has a default has an
     entry in the result — the hypothesis `DefaultsSupplied` of C15_precedence. -/
@@ -120,52 +130,120 @@ theorem C14_defaults (s : Schema) (op : OperationDef) (vars m : VarMap)
   · rw [hs] at e1; cases e1
     exact ⟨acc, c, e2, h2⟩
 
-/-
-  ────────────────────────────────────────────────────────────────────────────────────────────
-  FULL STATEMENTS of C14_conforms / C14_rejects (both FALSE of the tree):
+/-- When coercion returns values, the value of EVERY declared variable — scalar, enum, input
+    object (recursive ones included), under any list nesting — conforms to its declared type:
+    non-null positions never hold null, lists hold conforming items (nesting exact), input objects
+    contain only declared fields (EXCEPT the key `__typename`, R14c) with every required field
+    present, enums hold declared values, built-in scalars hold a value of a compatible kind. -/
+theorem C14_conforms (s : Schema) (op : OperationDef) (vars m : VarMap)
+    (hclosed : InputsClosed s) (hfn : InputFieldsNodup s) (hplain : EnumNamesPlain s)
+    (hnodup : (op.vars.map (·.var)).Nodup)
+    (hwf : wfFieldsB true vars = true)
+    (h : coerce s op vars = .ok m) :
+    ∀ v ∈ op.vars, ∀ y, m.lookup v.var = some y → ConformsExceptTypename s v.type y := by
+  intro v hv y hy
+  obtain ⟨acc, c, h1, h2, h3⟩ := coerceLoop_entry op.vars .nil m hnodup h v hv
+  have hty := coerceVar_inputType h1
+  rcases coerceVar_shape h1 with ⟨e, _⟩ | ⟨x, y', e1, e2, _⟩
+  · rw [h2, e, h3] at hy; simp [GoFields.lookup] at hy
+  · obtain ⟨⟨y'', e3, hc⟩, _⟩ := coerceSupplied_conforms s hclosed hfn hplain op v acc c x hty (suppliedValue_wf hwf e1) e2
+    rw [h2, e3, GoFields.lookup_set] at hy
+    simp at hy; subst hy; exact hc
 
-      theorem C14_conforms : coerce s op vars = .ok m → ∀ v ∈ op.vars, ∀ y, m.lookup v.var = some y → Conforms s v.type y
-      theorem C14_rejects  : (∃ v ∈ op.vars, ∃ x, vars.lookup v.var = some x ∧ ¬ Coercible s v.type x) → ∀ m, coerce s op vars ≠ .ok m
+/-- "Only declared fields", with the hypothesis made explicit: a returned value in which no object
+    has the key `__typename` conforms WITHOUT any exception. -/
+theorem C14_conforms_declared_only (s : Schema) (op : OperationDef) (vars m : VarMap)
+    (hclosed : InputsClosed s) (hfn : InputFieldsNodup s) (hplain : EnumNamesPlain s)
+    (hnodup : (op.vars.map (·.var)).Nodup)
+    (hwf : wfFieldsB true vars = true)
+    (h : coerce s op vars = .ok m) :
+    ∀ v ∈ op.vars, ∀ y, m.lookup v.var = some y → noTypenameB y = true → Conforms s v.type y := by
+  intro v hv y hy hno
+  exact conforms_dropT s false v.type y hno (C14_conforms s op vars m hclosed hfn hplain hnodup hwf h v hv y hy)
 
-  R14d (REPAIRED by r14d.patch, `legacyDiscardNestedListResult = false` in the model): the coerced
-  list item used to be discarded (`_, err := v.validateVarType(typ.Elem, field)`), so `$v: [[Int]]`
-  = `[1,2]` returned `[1,2]`; now the coerced item is stored back and the result is `[[1],[2]]`.
-  The former witness is kept as a theorem of conforming return (`C14_conforms_R14d_returns`, plus
-  `…_single_returns`, `…_field_returns`, `…_typed_returns`).
+/-- The key `__typename` is only handed on, never invented: when no object inside what is supplied
+    for a variable (its entry in the variables map, else its converted default value) has that
+    key, the value returned for the variable conforms WITHOUT any exception. -/
+theorem C14_conforms_no_typename_supplied (s : Schema) (op : OperationDef) (vars m : VarMap)
+    (hclosed : InputsClosed s) (hfn : InputFieldsNodup s) (hplain : EnumNamesPlain s)
+    (hnodup : (op.vars.map (·.var)).Nodup)
+    (hwf : wfFieldsB true vars = true)
+    (h : coerce s op vars = .ok m)
+    (v : VarDef) (hv : v ∈ op.vars)
+    (hsup : ∀ x, suppliedValue vars v = .ok (some x) → noTypenameB x = true) :
+    ∀ y, m.lookup v.var = some y → Conforms s v.type y := by
+  intro y hy
+  apply C14_conforms_declared_only s op vars m hclosed hfn hplain hnodup hwf h v hv y hy
+  obtain ⟨acc, c, h1, h2, h3⟩ := coerceLoop_entry op.vars .nil m hnodup h v hv
+  rcases coerceVar_shape h1 with ⟨e, _⟩ | ⟨x, y', e1, e2, _⟩
+  · rw [h2, e, h3] at hy; simp [GoFields.lookup] at hy
+  · obtain ⟨y'', e3, hn⟩ := coerceSupplied_noTypename (hsup x e1) e2
+    rw [h2, e3, GoFields.lookup_set] at hy
+    simp at hy; subst hy; exact hn
 
-  The code is still more lenient than the strict reading at FIVE points; each has a kernel-checked
-  counterexample below and is one field of `Leniency` (GqlModel/Vars/Spec.lean):
-    enumFold (R14b)         `$v: Color` = "red" is accepted for `enum Color { RED }`
-    typenameKey (R14c)      an input object keeps the undeclared key `__typename`
-    fractionalInt           `$v: Int` = 1.5 (float64) is accepted
-    numericStrings          `$v: Int` = "12" (a string) is accepted
-    jsonNumberAsString      `$v: String` = json.Number("12") is accepted
-  (the sixth field, `flatNested`, now only describes SUPPLIED values: the single-value-to-list
-  coercion of the GraphQL spec, part of `Coercible`).
-  `C14_conforms_partial` is the statement with `conformsWith .afterR14d` (the five leniencies, list
-  nesting EXACT) in place of `Conforms` — before the repair it could only be stated with
-  `.legacy`, i.e. granting `flatNested` to results; `C14_rejects_partial` is the statement with
-  `conformsWith .legacy` (five leniencies + single-value-to-list coercion) in place of `Coercible`.
-  Both are PROVED for variables whose named type is a scalar or an enum under any list nesting
-  (`LeafTyped`).  NOT FINISHED: the same statement for input-object types (the `fieldLoop`
-  invariant: keys preserved, every visited entry replaced by a conforming value, required fields
-  present; needs unique field names and unique map keys).  For input objects the claim is covered
-  by exploration only: the harness judges every value Go returns with `conformsWith .afterR14d`
-  and `.legacy` (C14 check: no violation in 4·10^5 results) and attributes each strict violation
-  to the leniencies above.
-  Repairs that make the strict statements true: compare enum names exactly, reject `__typename` /
-  fractional floats for Int / strings for Int and Float / json.Number for String.
-  ────────────────────────────────────────────────────────────────────────────────────────────
--/
+/-- R14c (known finding, not repaired): the undeclared key `__typename` is accepted and handed on;
+    the returned value is not `Conforms`, only `ConformsExceptTypename`. -/
+theorem C14_conforms_counterexample_typename :
+    coerce schema (opWith (named "In")) (varsV (imap [(str "a", int 1), (str "__typename", .str (str "In"))]))
+        = .ok (varsV (imap [(str "a", int 1), (str "__typename", .str (str "In"))]))
+    ∧ ¬ Conforms schema (named "In") (imap [(str "a", int 1), (str "__typename", .str (str "In"))])
+    ∧ ¬ Coercible schema (named "In") (imap [(str "a", int 1), (str "__typename", .str (str "In"))])
+    ∧ ConformsExceptTypename schema (named "In") (imap [(str "a", int 1), (str "__typename", .str (str "In"))]) := by
+  refine ⟨by rfl, by decide, by decide, by decide⟩
 
-/-- former R14d witness: `$v: [[Int]]` = `[1,2]` now yields `[[1],[2]]`, which conforms strictly. -/
+/-- any OTHER undeclared key is an error -/
+theorem C14_rejects_undeclared_key :
+    coerce schema (opWith (named "In")) (varsV (imap [(str "a", int 1), (str "zzz", int 2)]))
+        = .err (str "unknown field") [.name (str "variable"), .name (str "v"), .name (str "zzz")] [] := by
+  rfl
+
+/-- Coercion returns an error rather than values whenever a supplied value cannot conform (up to
+    the `__typename` exception): every variable type, every nesting. -/
+theorem C14_rejects (s : Schema) (op : OperationDef) (vars : VarMap)
+    (hclosed : InputsClosed s) (hfn : InputFieldsNodup s) (hplain : EnumNamesPlain s)
+    (hnodup : (op.vars.map (·.var)).Nodup)
+    (hwf : wfFieldsB true vars = true)
+    (v : VarDef) (hv : v ∈ op.vars)
+    (x : GoVal) (hx : vars.lookup v.var = some x) (hbad : ¬ CoercibleExceptTypename s v.type x) :
+    ∀ m, coerce s op vars ≠ .ok m := by
+  intro m h
+  obtain ⟨acc, c, h1, _, _⟩ := coerceLoop_entry op.vars .nil m hnodup h v hv
+  have hty := coerceVar_inputType h1
+  have hs : suppliedValue vars v = .ok (some x) := by simp [suppliedValue, hx]
+  rcases coerceVar_shape h1 with ⟨_, e⟩ | ⟨x', y', e1, e2, _⟩
+  · rw [hs] at e; simp at e
+  · rw [hs] at e1; cases e1
+    exact hbad (coerceSupplied_conforms s hclosed hfn hplain op v acc c x hty (suppliedValue_wf hwf hs) e2).2
+
+/-- … and without the exception when no object of the supplied value has the key `__typename`. -/
+theorem C14_rejects_declared_only (s : Schema) (op : OperationDef) (vars : VarMap)
+    (hclosed : InputsClosed s) (hfn : InputFieldsNodup s) (hplain : EnumNamesPlain s)
+    (hnodup : (op.vars.map (·.var)).Nodup)
+    (hwf : wfFieldsB true vars = true)
+    (v : VarDef) (hv : v ∈ op.vars)
+    (x : GoVal) (hx : vars.lookup v.var = some x) (hno : noTypenameB x = true) (hbad : ¬ Coercible s v.type x) :
+    ∀ m, coerce s op vars ≠ .ok m :=
+  C14_rejects s op vars hclosed hfn hplain hnodup hwf v hv x hx
+    (fun hc => hbad (conforms_dropT s true v.type x hno hc))
+
+/-- R14b repaired (former witness): `$v: Color` with "red" for `enum Color { RED }` is an error now;
+    the value is not coercible. -/
+theorem C14_rejects_enum_other_case :
+    coerce schema (opWith (named "Color")) (varsV (.str (str "red")))
+        = .err (str "red is not a valid Color") [.name (str "variable"), .name (str "v")] []
+    ∧ ¬ CoercibleExceptTypename schema (named "Color") (.str (str "red"))
+    ∧ coerce schema (opWith (named "Color")) (varsV (.str (str "RED"))) = .ok (varsV (.str (str "RED"))) := by
+  refine ⟨by rfl, by decide, by rfl⟩
+
+/-- former R14d witness: `$v: [[Int]]` = `[1,2]` yields `[[1],[2]]`, which conforms. -/
 theorem C14_conforms_R14d_returns :
     coerce schema (opWith (listOf (listOf (named "Int")))) (varsV (islice [int 1, int 2]))
         = .ok (varsV (islice [.slice (.int .int) (.cons (int 1) .nil), .slice (.int .int) (.cons (int 2) .nil)]))
     ∧ Conforms schema (listOf (listOf (named "Int")))
         (islice [.slice (.int .int) (.cons (int 1) .nil), .slice (.int .int) (.cons (int 2) .nil)])
-    ∧ Coercible schema (listOf (listOf (named "Int"))) (islice [int 1, int 2]) := by
-  refine ⟨by rfl, by decide, by decide⟩
+    ∧ Coercible schema (listOf (listOf (named "Int"))) (islice [int 1, int 2])
+    ∧ ¬ Conforms schema (listOf (listOf (named "Int"))) (islice [int 1, int 2]) := by
+  refine ⟨by rfl, by decide, by decide, by decide⟩
 
 /-- `$v: [[Int]]` = `1` yields `[[1]]` (as `[]interface{}{[]int{1}}`). -/
 theorem C14_conforms_R14d_single_returns :
@@ -188,78 +266,23 @@ theorem C14_conforms_R14d_field_returns :
     ∧ Conforms schema (named "In") (imap [(str "l", islice [.slice (.int .int) (.cons (int 1) .nil), islice [int 2]])]) := by
   refine ⟨by rfl, by decide⟩
 
-/-- R14b: enum values are matched case-insensitively. -/
-theorem C14_conforms_counterexample_enumFold :
-    coerce schema (opWith (named "Color")) (varsV (.str (str "red"))) = .ok (varsV (.str (str "red")))
-    ∧ ¬ Conforms schema (named "Color") (.str (str "red"))
-    ∧ ¬ Coercible schema (named "Color") (.str (str "red")) := by
-  refine ⟨by rfl, by decide, by decide⟩
+/-- The compatible kind table at work (these were counted as violations while the check demanded
+    strict GraphQL input coercion; C14 only asks for "a value of a compatible kind"): `Int` holds a
+    fractional float64, `Int` holds the string "12", `String` holds a json.Number — each returned
+    unchanged and `Conforms`; a string that does not spell an integer is rejected for `Int`. -/
+theorem C14_conforms_compatible_kinds :
+    (coerce schema (opWith (named "Int")) (varsV (.float false (str "1.5"))) = .ok (varsV (.float false (str "1.5")))
+      ∧ Conforms schema (named "Int") (.float false (str "1.5")))
+    ∧ (coerce schema (opWith (named "Int")) (varsV (.str (str "12"))) = .ok (varsV (.str (str "12")))
+      ∧ Conforms schema (named "Int") (.str (str "12")))
+    ∧ (coerce schema (opWith (named "String")) (varsV (.jsonNumber (str "12"))) = .ok (varsV (.jsonNumber (str "12")))
+      ∧ Conforms schema (named "String") (.jsonNumber (str "12")))
+    ∧ (coerce schema (opWith (named "Int")) (varsV (.str (str "1.5")))
+        = .err (str "cannot use string as Int") [.name (str "variable"), .name (str "v")] []
+      ∧ ¬ Coercible schema (named "Int") (.str (str "1.5"))) := by
+  refine ⟨⟨by rfl, by decide⟩, ⟨by rfl, by decide⟩, ⟨by rfl, by decide⟩, ⟨by rfl, by decide⟩⟩
 
-/-- R14c: the undeclared key `__typename` is accepted and kept. -/
-theorem C14_conforms_counterexample_typename :
-    coerce schema (opWith (named "In")) (varsV (imap [(str "a", int 1), (str "__typename", .str (str "In"))]))
-        = .ok (varsV (imap [(str "a", int 1), (str "__typename", .str (str "In"))]))
-    ∧ ¬ Conforms schema (named "In") (imap [(str "a", int 1), (str "__typename", .str (str "In"))]) := by
-  refine ⟨by rfl, by decide⟩
-
-/-- `Int` accepts a fractional float. -/
-theorem C14_conforms_counterexample_fractionalInt :
-    coerce schema (opWith (named "Int")) (varsV (.float false (str "1.5"))) = .ok (varsV (.float false (str "1.5")))
-    ∧ ¬ Conforms schema (named "Int") (.float false (str "1.5")) := by
-  refine ⟨by rfl, by decide⟩
-
-/-- `Int` accepts a string whose text parses as an integer. -/
-theorem C14_conforms_counterexample_numericString :
-    coerce schema (opWith (named "Int")) (varsV (.str (str "12"))) = .ok (varsV (.str (str "12")))
-    ∧ ¬ Conforms schema (named "Int") (.str (str "12")) := by
-  refine ⟨by rfl, by decide⟩
-
-/-- `String` accepts a json.Number. -/
-theorem C14_conforms_counterexample_jsonNumber :
-    coerce schema (opWith (named "String")) (varsV (.jsonNumber (str "12"))) = .ok (varsV (.jsonNumber (str "12")))
-    ∧ ¬ Conforms schema (named "String") (.jsonNumber (str "12")) := by
-  refine ⟨by rfl, by decide⟩
-
-/-- When coercion returns values, the value of every declared variable of a scalar- or enum-based
-    type (any list nesting) conforms to its declared type up to the FIVE enumerated leniencies; in
-    particular every list position holds a list of exactly the declared depth (false before the
-    repair of R14d, where only `conformsWith .legacy` — `flatNested` granted — could be proved).
-    `hwf` (new with the repair of R14a) is the representation invariant of `GoVal`, true of every
-    Go value: `.nil` only inside `interface{}` containers.  Before the repair an ill-formed typed
-    slice "holding" `.nil` at a list element type made the model panic; now the model returns it,
-    and `.slice (.slice int) [.nil]` would be a non-conforming result for `[[Int]!]`. -/
-theorem C14_conforms_partial (s : Schema) (op : OperationDef) (vars m : VarMap)
-    (hplain : EnumNamesPlain s) (hnodup : (op.vars.map (·.var)).Nodup)
-    (hwf : wfFieldsB true vars = true)
-    (h : coerce s op vars = .ok m) :
-    ∀ v ∈ op.vars, LeafTyped s v.type → ∀ y, m.lookup v.var = some y → conformsWith .afterR14d s v.type y = true := by
-  intro v hv ht y hy
-  obtain ⟨acc, c, h1, h2, h3⟩ := coerceLoop_entry op.vars .nil m hnodup h v hv
-  rcases coerceVar_shape h1 with ⟨e, _⟩ | ⟨x, y', e1, e2, _⟩
-  · rw [h2, e, h3] at hy; simp [GoFields.lookup] at hy
-  · obtain ⟨⟨y'', e3, hc⟩, _⟩ := coerceSupplied_conforms s hplain op v acc c x ht (suppliedValue_wf hwf e1) e2
-    rw [h2, e3, GoFields.lookup_set] at hy
-    simp at hy; subst hy; exact hc
-
-/-- Coercion returns an error rather than values whenever a supplied value of a scalar- or
-    enum-based type cannot conform even with the five leniencies and single-value-to-list coercion.
-    `hwf`: see C14_conforms_partial. -/
-theorem C14_rejects_partial (s : Schema) (op : OperationDef) (vars : VarMap)
-    (hplain : EnumNamesPlain s) (hnodup : (op.vars.map (·.var)).Nodup)
-    (hwf : wfFieldsB true vars = true)
-    (v : VarDef) (hv : v ∈ op.vars) (ht : LeafTyped s v.type)
-    (x : GoVal) (hx : vars.lookup v.var = some x) (hbad : conformsWith .legacy s v.type x = false) :
-    ∀ m, coerce s op vars ≠ .ok m := by
-  intro m h
-  obtain ⟨acc, c, h1, _, _⟩ := coerceLoop_entry op.vars .nil m hnodup h v hv
-  have hs : suppliedValue vars v = .ok (some x) := by simp [suppliedValue, hx]
-  rcases coerceVar_shape h1 with ⟨_, e⟩ | ⟨x', y', e1, e2, _⟩
-  · rw [hs] at e; simp at e
-  · rw [hs] at e1; cases e1
-    have := (coerceSupplied_conforms s hplain op v acc c x ht (suppliedValue_wf hwf hs) e2).2
-    simp [CL, hbad] at this
-
-/- non-vacuity of the hypotheses of C14_conforms_partial / C14_rejects_partial -/
+/- non-vacuity of the hypotheses of C14_total / C14_conforms / C14_rejects on the fixture schema -/
 example : EnumNamesPlain schema := by
   intro n d h ev hev
   have hm := lookup_mem (show schema.types.lookup n = some d from h)
@@ -267,19 +290,27 @@ example : EnumNamesPlain schema := by
   rcases hm with ⟨_, rfl⟩ | ⟨_, rfl⟩ | ⟨_, rfl⟩ | ⟨_, rfl⟩ | ⟨_, rfl⟩ | ⟨_, rfl⟩ <;>
     simp [mkDef, colorDef, inDef] at hev
   subst hev; decide
-example : LeafTyped schema (listOf (listOf (named "Color"))) := ⟨colorDef, by rfl, Or.inr rfl⟩
+example : InputFieldsNodup schema := by
+  intro n d h hk
+  have hm := lookup_mem (show schema.types.lookup n = some d from h)
+  simp only [schema, List.mem_cons, Prod.mk.injEq, List.not_mem_nil, or_false] at hm
+  rcases hm with ⟨_, rfl⟩ | ⟨_, rfl⟩ | ⟨_, rfl⟩ | ⟨_, rfl⟩ | ⟨_, rfl⟩ | ⟨_, rfl⟩ <;> decide
+example : InputsClosed schema := by
+  intro n d h hk f hf
+  have hm := lookup_mem (show schema.types.lookup n = some d from h)
+  simp only [schema, List.mem_cons, Prod.mk.injEq, List.not_mem_nil, or_false] at hm
+  rcases hm with ⟨_, rfl⟩ | ⟨_, rfl⟩ | ⟨_, rfl⟩ | ⟨_, rfl⟩ | ⟨_, rfl⟩ | ⟨_, rfl⟩ <;>
+    simp [mkDef, colorDef, inDef, mkField] at hk hf
+  rcases hf with rfl | rfl
+  · exact ⟨mkDef .scalar "Int", by rfl, Or.inl rfl⟩
+  · exact ⟨mkDef .scalar "Int", by rfl, Or.inl rfl⟩
 example : coerce schema (opWith (listOf (named "Color"))) (varsV (.str (str "RED")))
     = .ok (varsV (.slice .string (.cons (.str (str "RED")) .nil))) := by rfl
-example : conformsWith .afterR14d schema (listOf (listOf (named "Int"))) (islice [int 1, int 2]) = false := by decide
-example : conformsWith .legacy schema (named "Color") (.str (str "GREEN")) = false := by decide
-
-/- non-vacuity of C14_total_partial / C14_defaults: an operation with a default, coerced with the
-   empty map, returns the default -/
+example : ¬ CoercibleExceptTypename schema (named "Color") (.str (str "GREEN")) := by decide
+/- an operation with a default, coerced with the empty map, returns the default -/
 example : coerce schema (opWith (named "Int") (some (lit .int "5"))) .nil
     = .ok (.cons (str "v") (.int .int64 5) .nil) := by rfl
-example : safeFieldsB (varsV (islice [int 1, islice [int 2]])) = true := by decide
-/- null list items, typed slices and nested `map[string]interface{}` maps are inside `safeB` / `wfB` -/
-example : safeFieldsB (varsV (islice [.nil, islice [int 2, .nil], .slice (.int .int) (.cons (int 3) .nil),
-    imap [(str "l", islice [.nil])]])) = true := by decide
-example : jsonLikeFieldsB (varsV (islice [.nil, imap [(str "l", islice [islice [int 1, .nil], .nil])]])) = true := by decide
-example : wfFieldsB true (varsV (islice [.nil, .map (.int .int) (.cons (str "l") (int 1) .nil)])) = true := by decide
+/- null list items, typed slices, typed maps of any element type are inside `wfB` -/
+example : wfFieldsB true (varsV (islice [.nil, islice [int 2, .nil], .slice (.int .int) (.cons (int 3) .nil),
+    imap [(str "l", islice [.nil])], .map (.int .int) (.cons (str "l") (int 1) .nil),
+    .map (.slice .float32) (.cons (str "l") (.slice .float32 (.cons (.float true (str "1.5")) .nil)) .nil)])) = true := by decide
